@@ -4,6 +4,12 @@
 //! is compared by id, and the complete term table (`verif_term(0..n)`, every node over child ids)
 //! is compared literally several times per session: the model must allocate the same nodes in the
 //! same order.  See lean/Driver/FamMgr.lean for the line format.
+//!
+//! Besides constructors and derivatives the sessions interleave EVERY allocating operation of the
+//! manager (lean/SmtModel/Model/ManagerOps.lean): set/class derivatives, iter_derivatives,
+//! is_empty_re, get_string, start_char/start_class, compile/try_compile, naive_re_search (hook) and,
+//! on the thread-local manager of a fresh thread, str_replace_re / str_replace_re_all.  Their
+//! results and the table size after each are compared literally.
 
 use crate::fam_re::enc_node;
 use crate::rng::Rng;
@@ -23,6 +29,10 @@ fn p_nats(v: &[u32]) -> String {
 
 fn p_ids(v: &[RegLan]) -> String {
     format!("[{}]", v.iter().map(|x| x.verif_id().to_string()).collect::<Vec<_>>().join(","))
+}
+
+fn p_usizes(v: &[usize]) -> String {
+    format!("[{}]", v.iter().map(|x| x.to_string()).collect::<Vec<_>>().join(","))
 }
 
 fn p_cid(c: ClassId) -> String {
@@ -114,6 +124,262 @@ fn rand_char(rng: &mut Rng) -> u32 {
 fn rand_string(rng: &mut Rng, maxlen: u64) -> Vec<u32> {
     let n = rng.below(maxlen + 1);
     (0..n).map(|_| 97 + rng.below(4) as u32).collect()
+}
+
+/// number of nodes of the term as a tree, capped
+fn tsize(re: RegLan, cap: usize) -> usize {
+    fn go(re: RegLan, left: &mut usize) {
+        if *left == 0 {
+            return;
+        }
+        *left -= 1;
+        match re.verif_expr() {
+            BaseRegLan::Empty | BaseRegLan::Epsilon | BaseRegLan::Range(_) => {}
+            BaseRegLan::Concat(l, r) => {
+                go(l, left);
+                go(r, left);
+            }
+            BaseRegLan::Loop(e, _) => go(e, left),
+            BaseRegLan::Complement(e) => go(e, left),
+            BaseRegLan::Union(l) | BaseRegLan::Inter(l) => {
+                for x in l.iter() {
+                    go(x, left);
+                }
+            }
+        }
+    }
+    let mut left = cap;
+    go(re, &mut left);
+    cap - left
+}
+
+fn p_search(r: aws_smt_strings::verif_hooks::SearchResult) -> String {
+    match r {
+        aws_smt_strings::verif_hooks::SearchResult::Found(i, j) => format!("some:{}:{}", i, j),
+        aws_smt_strings::verif_hooks::SearchResult::NotFound => "none".into(),
+    }
+}
+
+/// the operations of Model/ManagerOps.lean: searches over the derivative closure, compilation,
+/// regex search — every one allocates through the derivative cache; after each, the table size is
+/// compared (the complete table is compared by the periodic `dump`)
+fn heavy_step(s: &mut Session, rng: &mut Rng) {
+    // a small term (the closure of a big one may be huge): a few attempts
+    let mut pick = None;
+    for k in 0..12 {
+        let (x, bx) = s.pick_recent(rng);
+        let sz = tsize(x, 60);
+        // prefer terms with some structure; fall back to any small term
+        if sz <= 26 && (sz >= 4 || k >= 8) && 2 * bx + 64 <= BOUND_CAP {
+            pick = Some((x, bx));
+            break;
+        }
+    }
+    let (x, bx) = match pick {
+        Some(p) => p,
+        None => return,
+    };
+    let ix = Session::id(x);
+    let nb = 2 * bx + 64;
+    match rng.below(12) {
+        0 | 1 => {
+            let m = &mut s.m;
+            let mut out: Vec<usize> = Vec::new();
+            let r = guarded(|| {
+                for d in m.iter_derivatives(x) {
+                    out.push(d.verif_id());
+                }
+                p_usizes(&out)
+            });
+            s.t.count(&format!("iter_derivs_bucket={}", std::cmp::min(out.len() / 4 * 4, 40)));
+            s.t.op(&format!("mgr iter_derivs {}", ix), &r, true);
+            // a few of the derivatives join the pool
+            for d in out.iter().skip(1).take(3) {
+                let re = s.m.verif_term(*d);
+                s.pool.push((re, nb));
+            }
+        }
+        2 => {
+            let m = &mut s.m;
+            let r = guarded(|| p_bool(m.is_empty_re(x)));
+            s.t.count(&format!("is_empty_re={}", r));
+            s.t.op(&format!("mgr is_empty_re {}", ix), &r, true);
+        }
+        3 => {
+            let m = &mut s.m;
+            let r = guarded(|| match m.get_string(x) {
+                None => "none".into(),
+                Some(w) => format!("some:{}", p_nats(w.as_ref())),
+            });
+            s.t.count(if r == "none" { "get_string=none" } else { "get_string=some" });
+            s.t.op(&format!("mgr get_string {}", ix), &r, true);
+        }
+        4 | 5 => {
+            let c = rand_char(rng);
+            let m = &mut s.m;
+            let r = guarded(|| p_bool(m.start_char(x, c)));
+            s.t.count(&format!("start_char={}", r));
+            s.t.op(&format!("mgr start_char {} {}", ix, c), &r, true);
+        }
+        6 => {
+            let mut cids: Vec<ClassId> = x.class_ids().collect();
+            cids.push(ClassId::Interval(x.num_deriv_classes() + 1));
+            let cid = *rng.pick(&cids);
+            let m = &mut s.m;
+            let r = guarded(|| match m.start_class(x, cid) {
+                Ok(b) => p_bool(b),
+                Err(e) => format!("Err:{:?}", e),
+            });
+            s.t.op(&format!("mgr start_class {} {}", ix, p_cid(cid)), &r, true);
+        }
+        7 => {
+            let m = &mut s.m;
+            let r = guarded(|| crate::fam_aut::aut_str(&m.compile(x)));
+            s.t.count("compile");
+            s.t.op(&format!("mgr compile {}", ix), &r, true);
+        }
+        8 => {
+            // the closure size decides Some/None: enumerate it first (that call allocates: recorded)
+            let m = &mut s.m;
+            let mut k = 0usize;
+            let r = guarded(|| {
+                let v: Vec<usize> = m.iter_derivatives(x).map(|d| d.verif_id()).collect();
+                k = v.len();
+                p_usizes(&v)
+            });
+            s.t.op(&format!("mgr iter_derivs {}", ix), &r, true);
+            let n = match rng.below(4) {
+                0 => 0,
+                1 => k.saturating_sub(1),
+                2 => k,
+                _ => k + 1 + rng.below(3) as usize,
+            };
+            let m = &mut s.m;
+            let r = guarded(|| match m.try_compile(x, n) {
+                None => "none".into(),
+                Some(a) => format!("some:{}", crate::fam_aut::aut_str(&a)),
+            });
+            s.t.count(if r == "none" { "try_compile=none" } else { "try_compile=some" });
+            s.t.op(&format!("mgr try_compile {} {}", ix, n), &r, true);
+        }
+        9 | 10 => {
+            let w = rand_string(rng, 5);
+            let k = rng.below(w.len() as u64 + 2) as usize;
+            let allow = rng.chance(1, 2);
+            let m = &mut s.m;
+            let r = guarded(|| p_search(aws_smt_strings::verif_hooks::naive_re_search(m, x, &w, k, allow)));
+            s.t.count(if r == "none" { "re_search=none" } else { "re_search=some" });
+            s.t.op(&format!("mgr re_search {} {} {} {}", ix, p_nats(&w), k, p_bool(allow)), &r, true);
+        }
+        _ => {
+            // set derivatives at the cut points of the term's classes, unchecked class derivative
+            let mut cps: Vec<u32> = vec![0, 96, 97, 98, 99, 100, 101, MAX_CHAR];
+            for r in x.char_ranges() {
+                let a = r.pick();
+                cps.push(a);
+                cps.push(a + r.size() - 1);
+            }
+            let a = *rng.pick(&cps);
+            let b = *rng.pick(&cps);
+            let (a, b) = if a <= b { (a, b) } else { (b, a) };
+            let set = CharSet::range(a, b);
+            match rng.below(3) {
+                0 => {
+                    let lhs = format!("mgr set_deriv {} {}-{}", ix, a, b);
+                    let m = &mut s.m;
+                    match catch_unwind(AssertUnwindSafe(|| m.set_derivative(x, &set))) {
+                        Ok(Ok(re)) => {
+                            s.t.op(&lhs, &Session::id(re), true);
+                            s.t.count("set_deriv=Ok");
+                            s.pool.push((re, nb));
+                        }
+                        Ok(Err(e)) => {
+                            s.t.count("set_deriv=Err");
+                            s.t.op(&lhs, &format!("Err:{:?}", e), true)
+                        }
+                        Err(_) => s.t.op(&lhs, "PANIC", true),
+                    }
+                }
+                1 => {
+                    s.call(format!("mgr set_deriv_unchecked {} {}-{}", ix, a, b), nb, |m| m.set_derivative_unchecked(x, &set));
+                }
+                _ => {
+                    let mut cids: Vec<ClassId> = x.class_ids().collect();
+                    cids.push(ClassId::Interval(x.num_deriv_classes() + 1));
+                    cids.push(ClassId::Complement);
+                    let cid = *rng.pick(&cids);
+                    s.call(format!("mgr class_deriv_unchecked {} {}", ix, p_cid(cid)), nb, |m| m.class_derivative_unchecked(x, cid));
+                }
+            }
+        }
+    }
+    let n = s.m.verif_num_terms();
+    s.t.op("mgr size", &n.to_string(), true);
+}
+
+/// a session on the THREAD-LOCAL manager of src/smt_regular_expressions.rs (the only manager
+/// `str_replace_re` / `str_replace_re_all` work on), run in a fresh thread so that the manager is
+/// fresh: terms are built through `verif_with_manager`, then replaced in random strings
+fn replace_session(t: &mut Trace, rng: &mut Rng) {
+    use aws_smt_strings::smt_regular_expressions::{str_replace_re, str_replace_re_all, verif_with_manager};
+    std::thread::scope(|sc| {
+        sc.spawn(|| {
+            t.op("mgr begin", "ok", false);
+            let mut pool: Vec<RegLan> = Vec::new();
+            let mut mk = |t: &mut Trace, lhs: String, f: &mut dyn FnMut(&mut ReManager) -> RegLan| -> RegLan {
+                let re = verif_with_manager(|m| f(m));
+                t.op(&lhs, &Session::id(re), true);
+                re
+            };
+            for c in 97..100u32 {
+                let r = mk(t, format!("mgr char {}", c), &mut |m| m.char(c));
+                pool.push(r);
+            }
+            let r = mk(t, "mgr full".into(), &mut |m| m.full());
+            pool.push(r);
+            let r = mk(t, "mgr all_chars".into(), &mut |m| m.all_chars());
+            pool.push(r);
+            let steps = 6 + rng.below(10);
+            for _ in 0..steps {
+                let x = pool[rng.below(pool.len() as u64) as usize];
+                let y = pool[rng.below(pool.len() as u64) as usize];
+                let (ix, iy) = (Session::id(x), Session::id(y));
+                let r = match rng.below(8) {
+                    0 => {
+                        let w = rand_string(rng, 3);
+                        let w2 = w.clone();
+                        mk(t, format!("mgr str {}", p_nats(&w)), &mut move |m| m.str(&SmtString::from(&w2[..])))
+                    }
+                    1 | 2 => mk(t, format!("mgr concat {} {}", ix, iy), &mut |m| m.concat(x, y)),
+                    3 => mk(t, format!("mgr union {} {}", ix, iy), &mut |m| m.union(x, y)),
+                    4 => mk(t, format!("mgr inter {} {}", ix, iy), &mut |m| m.inter(x, y)),
+                    5 => mk(t, format!("mgr comp {}", ix), &mut |m| m.complement(x)),
+                    6 => mk(t, format!("mgr star {}", ix), &mut |m| m.star(x)),
+                    _ => mk(t, format!("mgr plus {}", ix), &mut |m| m.plus(x)),
+                };
+                pool.push(r);
+                if tsize(r, 40) <= 14 {
+                    let w = rand_string(rng, 6);
+                    let rep = rand_string(rng, 2);
+                    let (s1, s2) = (SmtString::from(&w[..]), SmtString::from(&rep[..]));
+                    let ir = Session::id(r);
+                    let res = guarded(|| p_nats(str_replace_re(&s1, r, &s2).as_ref()));
+                    t.op(&format!("mgr replace_re {} {} {}", p_nats(&w), ir, p_nats(&rep)), &res, true);
+                    let res = guarded(|| p_nats(str_replace_re_all(&s1, r, &s2).as_ref()));
+                    t.op(&format!("mgr replace_re_all {} {} {}", p_nats(&w), ir, p_nats(&rep)), &res, true);
+                    t.count("replace");
+                    let n = verif_with_manager(|m| m.verif_num_terms());
+                    t.op("mgr size", &n.to_string(), true);
+                }
+            }
+            let (n, enc) = verif_with_manager(|m| (m.verif_num_terms(), enc_table(m)));
+            t.op("mgr size", &n.to_string(), true);
+            t.op("mgr table", &enc, true);
+            t.count("table-dump");
+        })
+        .join()
+        .unwrap();
+    });
 }
 
 fn step(s: &mut Session, rng: &mut Rng) {
@@ -334,10 +600,97 @@ fn corpus(t: &mut Trace) {
     s.call("mgr range 98 97".into(), 1, |m| m.range(98, 97));
     s.call(format!("mgr char {}", MAX_CHAR + 1), 1, |m| m.char(MAX_CHAR + 1));
     s.dump();
+    corpus_ops(t);
+}
+
+/// the searches on a fresh manager: allocation order of `DerivativeIterator::next` (all class
+/// derivatives of the popped term before it is yielded), `is_empty_re` stopping at the first
+/// nullable term, the D8 witness of `start_char` (Sigma & ab at 'a'), `try_compile` at the bound
+fn corpus_ops(t: &mut Trace) {
+    let mut s = Session::new(t);
+    let ac = s.call("mgr str [97,99]".into(), 1, |m| m.str(&"ac".into())).unwrap();
+    let bc = s.call("mgr str [98,99]".into(), 1, |m| m.str(&"bc".into())).unwrap();
+    let sum = s.call(format!("mgr union {} {}", Session::id(ac), Session::id(bc)), 1, |m| m.union(ac, bc)).unwrap();
+    let e = s.call(format!("mgr plus {}", Session::id(sum)), 4, |m| m.plus(sum)).unwrap();
+    let ie = Session::id(e);
+    // is_empty_re first: it must allocate only the derivatives of the terms popped before the
+    // first nullable one
+    let r = guarded(|| p_bool(s.m.is_empty_re(e)));
+    s.t.op(&format!("mgr is_empty_re {}", ie), &r, true);
+    s.dump();
+    let r = guarded(|| match s.m.get_string(e) {
+        None => "none".into(),
+        Some(w) => format!("some:{}", p_nats(w.as_ref())),
+    });
+    s.t.op(&format!("mgr get_string {}", ie), &r, true);
+    s.dump();
+    for n in [0usize, 3, 4] {
+        let r = guarded(|| match s.m.try_compile(e, n) {
+            None => "none".into(),
+            Some(a) => format!("some:{}", crate::fam_aut::aut_str(&a)),
+        });
+        s.t.op(&format!("mgr try_compile {} {}", ie, n), &r, true);
+        s.dump();
+    }
+    let r = guarded(|| {
+        let v: Vec<usize> = s.m.iter_derivatives(e).map(|d| d.verif_id()).collect();
+        p_usizes(&v)
+    });
+    s.t.op(&format!("mgr iter_derivs {}", ie), &r, true);
+    let r = guarded(|| crate::fam_aut::aut_str(&s.m.compile(e)));
+    s.t.op(&format!("mgr compile {}", ie), &r, true);
+    s.dump();
+    // D8: Sigma & "ab" at 'a'
+    let sg = s.call("mgr all_chars".into(), 1, |m| m.all_chars()).unwrap();
+    let ab = s.call("mgr str [97,98]".into(), 1, |m| m.str(&"ab".into())).unwrap();
+    let it = s.call(format!("mgr inter {} {}", Session::id(sg), Session::id(ab)), 1, |m| m.inter(sg, ab)).unwrap();
+    let r = guarded(|| p_bool(s.m.start_char(it, 97)));
+    s.t.op(&format!("mgr start_char {} 97", Session::id(it)), &r, true);
+    let nit = s.call(format!("mgr comp {}", Session::id(it)), 1, |m| m.complement(it)).unwrap();
+    let r = guarded(|| p_bool(s.m.start_char(nit, 97)));
+    s.t.op(&format!("mgr start_char {} 97", Session::id(nit)), &r, true);
+    let un = s.call(format!("mgr union {} {}", Session::id(it), Session::id(e)), 4, |m| m.union(it, e)).unwrap();
+    for c in [97u32, 98, 99, 100] {
+        let r = guarded(|| p_bool(s.m.start_char(un, c)));
+        s.t.op(&format!("mgr start_char {} {}", Session::id(un), c), &r, true);
+    }
+    s.dump();
+    // search: stops at the first nullable / syntactically empty derivative
+    for (w, k, allow) in [(vec![100u32, 97, 99, 98, 99], 0usize, false), (vec![97u32, 97, 99], 1, true), (vec![99u32, 99], 0, true), (vec![97u32], 2, true)] {
+        let r = guarded(|| p_search(aws_smt_strings::verif_hooks::naive_re_search(&mut s.m, e, &w, k, allow)));
+        s.t.op(&format!("mgr re_search {} {} {} {}", ie, p_nats(&w), k, p_bool(allow)), &r, true);
+    }
+    let st = s.call(format!("mgr star {}", Session::id(sum)), 4, |m| m.star(sum)).unwrap();
+    let r = guarded(|| p_search(aws_smt_strings::verif_hooks::naive_re_search(&mut s.m, st, &[100, 97], 5, true)));
+    s.t.op(&format!("mgr re_search {} [100,97] 5 1", Session::id(st)), &r, true);
+    // set derivatives: inside a class, straddling (D2), complementary class
+    for (a, b) in [(97u32, 97u32), (97, 98), (100, 200), (0, 96), (96, 97)] {
+        let lhs = format!("mgr set_deriv {} {}-{}", ie, a, b);
+        let set = CharSet::range(a, b);
+        let r = guarded(|| match s.m.set_derivative(e, &set) {
+            Ok(d) => Session::id(d),
+            Err(x) => format!("Err:{:?}", x),
+        });
+        s.t.op(&lhs, &r, true);
+        s.call(format!("mgr set_deriv_unchecked {} {}-{}", ie, a, b), 8, |m| m.set_derivative_unchecked(e, &set));
+    }
+    s.call(format!("mgr class_deriv_unchecked {} I7", ie), 8, |m| m.class_derivative_unchecked(e, ClassId::Interval(7)));
+    s.call(format!("mgr class_deriv_unchecked {} C", ie), 8, |m| m.class_derivative_unchecked(e, ClassId::Complement));
+    let r = guarded(|| match s.m.start_class(e, ClassId::Interval(0)) {
+        Ok(b) => p_bool(b),
+        Err(x) => format!("Err:{:?}", x),
+    });
+    s.t.op(&format!("mgr start_class {} I0", ie), &r, true);
+    let r = guarded(|| match s.m.start_class(e, ClassId::Interval(9)) {
+        Ok(b) => p_bool(b),
+        Err(x) => format!("Err:{:?}", x),
+    });
+    s.t.op(&format!("mgr start_class {} I9", ie), &r, true);
+    s.dump();
 }
 
 pub fn run(t: &mut Trace, rng: &mut Rng, thorough: bool) {
-    t.rule = "every call that returns a term, a Boolean or the table of a session replayed from a fresh model state (all but the nullable reads)".into();
+    t.rule = "every call that returns a term, a Boolean, a search result, an automaton or the table (size) of a session replayed from a fresh model state (all but the nullable reads)".into();
     corpus(t);
     let sessions = if thorough { 900 } else { 90 };
     for k in 0..sessions {
@@ -358,10 +711,17 @@ pub fn run(t: &mut Trace, rng: &mut Rng, thorough: bool) {
         let steps = if k % 10 == 0 { 500 } else { 60 + rng.below(120) };
         for i in 0..steps {
             step(&mut s, rng);
+            // every operation of the manager: interleave the searches / compilation / regex search
+            if i % 6 == 5 {
+                heavy_step(&mut s, rng);
+            }
             if i % 30 == 29 {
                 s.dump();
             }
         }
         s.dump();
+        if k % 3 == 0 {
+            replace_session(t, rng);
+        }
     }
 }
